@@ -340,6 +340,45 @@ Definition api_call (a : api) (c : call) : res :=
   | CWrite i => match nth_error (a_sstreams a) i with Some s => s_write s | None => RBlock end
   end.
 
+(** * Parked goroutines and how the fan-out wakes them
+
+    Any number of goroutines may be parked in the same call (several AcceptStream callers, several
+    OpenStreamSync waiters, several ReceiveDatagram callers ...): the parked set is a LIST of calls in which
+    a call may occur any number of times. What wakes them when the connection ends:
+      incoming maps   close(m.newStreamChan)                 a closed channel wakes every waiter
+      outgoing maps   every waiter's own channel in openQueue is closed
+      datagram queue  close(h.closed)
+      streams         signalRead / signalWrite: one token in a 1-slot channel — wakes ONE goroutine; the API
+                      allows one reader (writer) per stream at a time (Write is serialised by writeOnce) *)
+Inductive wakeup := WakeAll | WakeOne.
+
+Definition close_wakeup (c : call) : wakeup :=
+  match c with
+  | CRead _ | CWrite _ => WakeOne
+  | _ => WakeAll
+  end.
+
+Definition call_eq_dec : forall c d : call, {c = d} + {c <> d}.
+Proof. decide equality; apply Nat.eq_dec. Defined.
+
+(** the parked calls that are woken, for a wake-up primitive [wk] per call: a token serves the first waiter on
+    that object only *)
+Fixpoint woken_from (wk : call -> wakeup) (served : list call) (ps : list call) : list call :=
+  match ps with
+  | [] => []
+  | p :: r =>
+    match wk p with
+    | WakeAll => p :: woken_from wk served r
+    | WakeOne => if in_dec call_eq_dec p served then woken_from wk served r
+                 else p :: woken_from wk (p :: served) r
+    end
+  end.
+Definition woken (ps : list call) : list call := woken_from close_wakeup [] ps.
+
+(** at most one goroutine parked per stream direction *)
+Definition one_per_stream (ps : list call) : Prop :=
+  NoDup (filter (fun c => match close_wakeup c with WakeOne => true | WakeAll => false end) ps).
+
 (** * How run() ends, and what is left in the transport's routing table
 
     If cryptoStreamHandler.StartHandshake (or the first handleHandshakeEvents) fails, run() calls
